@@ -764,8 +764,8 @@ class Fxp():
             elif val.dtype.kind == 'f' and val.dtype.itemsize < 8:
                 vdtype = float
         
-        # scaling conversion
-        self.scaled = False
+        # scaling conversion (a raw value is stored as it is, but the object stays a scaled one)
+        self.scaled = self.scale is not None and self.bias is not None and (self.bias != 0 or self.scale != 1)
         if self.scale is not None and self.bias is not None and not raw:
             if self.bias != 0:
                 val = val - self.bias
